@@ -60,6 +60,16 @@ CountsSumToShots == ISum([k \in 1..N |-> 1]) = N /\ (N >= 1 => RSum([k \in 1..N 
 TalliesSumToShots == \A S \in SUBSET Qubits : ParityTally(S)[1] + ParityTally(S)[2] = N
 MeanFromTallies == N >= 1 => \A S \in SUBSET Qubits : MeanEig(S) = RNorm(ParityTally(S)[1] - ParityTally(S)[2], N)
 
+\* ---- expectation values recomputed from parity tallies (get_expectation_values_from_parities) -------------------
+\* value = 2*N0/N - 1; squared precision = 4p(1-p)/N when N >= 100 and 1/10 <= p <= 9/10, else the bound 1/N
+ValueFromTally(t) == RNorm(t[1] - t[2], t[1] + t[2])
+PrecSqFromTally(t) == LET nn == t[1] + t[2] p == RNorm(t[1], nn) IN
+   IF nn >= 100 /\ RLeq(<<1, 10>>, p) /\ RLeq(p, <<9, 10>>) THEN RDiv(RMul(R(4), RMul(p, RSub(R(1), p))), R(nn)) ELSE RNorm(1, nn)
+TallyValueIsMean == N >= 1 => \A S \in SUBSET Qubits : ValueFromTally(ParityTally(S)) = MeanEig(S)
+\* the variance estimate never exceeds the bound used for few samples (4p(1-p) <= 1), for tallies scaled to many samples too
+Scaled(t, k) == <<k * t[1], k * t[2]>>
+PrecisionBounded == N >= 1 => \A S \in SUBSET Qubits : \A k \in {1, 60} : RLeq(PrecSqFromTally(Scaled(ParityTally(S), k)), RNorm(1, k * N))
+
 \* ---- operator pools --------------------------------------------------------------------------------------------
 Tm(S, c) == [sup |-> S, c |-> c]
 Coefs == << <<R(1), R(-1)>>, <<R(2), <<1, 2>>>>, <<R(3), R(2)>> >>
@@ -80,5 +90,7 @@ EmitStats == IF ~Emitting \/ N = 0 THEN TRUE ELSE
                  cov |-> [i \in Idx |-> [j \in Idx |-> DefCov(i, j, N)]],
                  covb |-> IF N >= 2 THEN [i \in Idx |-> [j \in Idx |-> DefCov(i, j, N - 1)]] ELSE <<>>,
                  counts |-> [k \in 1..Len(SeenSeq) |-> [t |-> SeenSeq[k], n |-> Count(SeenSeq[k])]],
-                 tallies |-> [i \in Idx |-> ParityTally(op[i].sup)]]))
+                 tallies |-> [i \in Idx |-> ParityTally(op[i].sup)],
+                 fromtally |-> [i \in Idx |-> [v |-> ValueFromTally(ParityTally(op[i].sup)), p1 |-> PrecSqFromTally(ParityTally(op[i].sup)),
+                                                p60 |-> PrecSqFromTally(Scaled(ParityTally(op[i].sup), 60))]]]))
 =============================================================================
